@@ -14,7 +14,7 @@ macro_rules! hist {
         #[kani::stub(parking_lot::RawRwLock::unlock_shared_slow, ulk_sh_slow)]
         #[kani::stub(alloc::fmt::format, fmt_stub)]
         fn $name() {
-            let ent = [any_entity(), any_entity()];
+            let ent = [any_node(), any_node()];
             let iso = [any_iso(), any_iso(), any_iso()];
             let mut s = Sim::new(&ent, iso);
             { let $s = &mut s; $ops }
@@ -33,7 +33,7 @@ macro_rules! hist {
 //@ unwind: 5
 //@ stubs: parking_lot slow paths, alloc::fmt::format
 //@ encodes: TransactionManager::{new,begin_with_isolation,record_write,commit,state}
-//@ symbolic: both entities (kind + all 64 id bits), the isolation level of each transaction
+//@ symbolic: both entities (nodes, all 64 id bits each), the isolation level of each transaction
 //@ bound: history  begin T0; begin T1; write(T0,e0); write(T1,e1); commit T1; commit T0  (2 overlapping writers)
 //@ oracle: commit(T) accepted iff no OTHER transaction committed after T began with a common written entity; refused => WriteConflict and T stays active; epochs strictly increase
 hist!(c03_overlap_second_loses, s, { s.b(0); s.b(1); s.w(0,0); s.w(1,1); s.c(1); s.c(0); }, |m, same| m == 0b10 && same);
@@ -44,7 +44,7 @@ hist!(c03_overlap_second_loses, s, { s.b(0); s.b(1); s.w(0,0); s.w(1,1); s.c(1);
 //@ unwind: 5
 //@ stubs: parking_lot slow paths, alloc::fmt::format
 //@ encodes: TransactionManager::{begin_with_isolation,record_write,commit,state}
-//@ symbolic: both entities, isolation levels
+//@ symbolic: both entities (nodes, all 64 id bits each), isolation levels
 //@ bound: history  begin T1; write(T1,e1); commit T1; begin T0; write(T0,e0); commit T0  (T1 committed BEFORE T0 began; no clean-up in between)
 //@ oracle: T0 is never refused because of T1 (specification as in c03_overlap_second_loses)
 hist!(c03_sequential_writers_no_gc, s, { s.b(1); s.w(1,1); s.c(1); s.b(0); s.w(0,0); s.c(0); }, |m, same| m == 0b11 && same);
@@ -55,7 +55,7 @@ hist!(c03_sequential_writers_no_gc, s, { s.b(1); s.w(1,1); s.c(1); s.b(0); s.w(0
 //@ unwind: 5
 //@ stubs: parking_lot slow paths, alloc::fmt::format
 //@ encodes: TransactionManager::{begin_with_isolation,record_write,commit,gc,state}
-//@ symbolic: both entities, isolation levels
+//@ symbolic: both entities (nodes, all 64 id bits each), isolation levels
 //@ bound: history  begin T1; write(T1,e1); commit T1; gc; begin T0; write(T0,e0); commit T0
 //@ oracle: same verdicts as without gc (clean-up never changes which commits are accepted)
 hist!(c03_sequential_writers_gc, s, { s.b(1); s.w(1,1); s.c(1); s.g(); s.b(0); s.w(0,0); s.c(0); }, |m, same| m == 0b11 && same);
@@ -66,7 +66,7 @@ hist!(c03_sequential_writers_gc, s, { s.b(1); s.w(1,1); s.c(1); s.g(); s.b(0); s
 //@ unwind: 5
 //@ stubs: parking_lot slow paths, alloc::fmt::format
 //@ encodes: TransactionManager::{begin_with_isolation,record_write,commit,gc,state}
-//@ symbolic: both entities, isolation levels
+//@ symbolic: both entities (nodes, all 64 id bits each), isolation levels
 //@ bound: history  begin T2 (long-running reader, never ends); begin T1; write(T1,e1); commit T1; gc; begin T0; write(T0,e0); commit T0
 //@ oracle: T0 accepted although the pinned T1 entry survives clean-up (T1 committed before T0 began)
 hist!(c03_pinned_reader_then_sequential, s, { s.b(2); s.b(1); s.w(1,1); s.c(1); s.g(); s.b(0); s.w(0,0); s.c(0); }, |m, same| m == 0b11 && same);
@@ -77,7 +77,7 @@ hist!(c03_pinned_reader_then_sequential, s, { s.b(2); s.b(1); s.w(1,1); s.c(1); 
 //@ unwind: 5
 //@ stubs: parking_lot slow paths, alloc::fmt::format
 //@ encodes: TransactionManager::{begin_with_isolation,record_write,commit,gc,state}
-//@ symbolic: both entities, isolation levels
+//@ symbolic: both entities (nodes, all 64 id bits each), isolation levels
 //@ bound: history  begin T0; begin T1; write(T1,e1); commit T1; gc; write(T0,e0); commit T0  (clean-up between the first commit and the overlapping second)
 //@ oracle: gc must not forget T1 while the overlapping T0 is active: T0 refused iff same entity
 hist!(c03_overlap_gc_between, s, { s.b(0); s.b(1); s.w(1,1); s.c(1); s.g(); s.w(0,0); s.c(0); }, |m, same| m == 0b10 && same);
@@ -88,7 +88,7 @@ hist!(c03_overlap_gc_between, s, { s.b(0); s.b(1); s.w(1,1); s.c(1); s.g(); s.w(
 //@ unwind: 5
 //@ stubs: parking_lot slow paths, alloc::fmt::format
 //@ encodes: TransactionManager::{begin_with_isolation,record_write,commit,abort,state}
-//@ symbolic: both entities, isolation levels
+//@ symbolic: both entities (nodes, all 64 id bits each), isolation levels
 //@ bound: history  begin T0; begin T1; write(T0,e0); write(T1,e1); abort T1; commit T0; commit T1
 //@ oracle: an aborted writer never blocks anyone; commit of an aborted transaction is InvalidState; Aborted is absorbing
 hist!(c03_aborted_writer_harmless, s, { s.b(0); s.b(1); s.w(0,0); s.w(1,1); s.a(1); s.c(0); s.c(1); }, |m, same| m == 0b01 && same);
@@ -99,7 +99,32 @@ hist!(c03_aborted_writer_harmless, s, { s.b(0); s.b(1); s.w(0,0); s.w(1,1); s.a(
 //@ unwind: 5
 //@ stubs: parking_lot slow paths, alloc::fmt::format
 //@ encodes: TransactionManager::{begin_with_isolation,record_write,commit,state}
-//@ symbolic: both entities, isolation levels
+//@ symbolic: both entities (nodes, all 64 id bits each), isolation levels
 //@ bound: history  begin T0; begin T1; write(T0,e0); write(T0,e1); write(T1,e1); commit T0; commit T1; commit T1 (retry)
 //@ oracle: two-entity write set; the loser stays refused on retry (the winner's write set is kept while the loser is active)
 hist!(c03_two_entities_retry, s, { s.b(0); s.b(1); s.w(0,0); s.w(0,1); s.w(1,1); s.c(0); s.c(1); s.c(1); }, |m, _s| m == 0b01);
+
+//@ property: C03
+//@ tier: quick
+//@ cap_s: 400
+//@ stubs: parking_lot slow paths, alloc::fmt::format
+//@ encodes: TransactionManager::{begin_with_isolation,record_write,commit,state}, EntityId::eq
+//@ symbolic: a node id and an edge id (all 64 bits each, may be numerically equal), isolation levels
+//@ bound: history  begin T0; begin T1; write(T0,node); write(T1,edge); commit T1; commit T0
+//@ oracle: a node and an edge are different entities even with equal ids: both commit
+#[kani::proof]
+#[kani::unwind(5)]
+#[kani::stub(parking_lot::RawRwLock::lock_exclusive_slow, lk_slow)]
+#[kani::stub(parking_lot::RawRwLock::lock_shared_slow, lk_sh_slow)]
+#[kani::stub(parking_lot::RawRwLock::unlock_exclusive_slow, ulk_slow)]
+#[kani::stub(parking_lot::RawRwLock::unlock_shared_slow, ulk_sh_slow)]
+#[kani::stub(alloc::fmt::format, fmt_stub)]
+fn c03_node_vs_edge_never_conflict() {
+    let ent = [any_node(), any_edge()];
+    let iso = [any_iso(), any_iso(), any_iso()];
+    let mut s = Sim::new(&ent, iso);
+    s.b(0); s.b(1); s.w(0,0); s.w(1,1); s.c(1); s.c(0);
+    assert!(s.mask == 0b11);
+    kani::cover!(true);
+    std::mem::forget(s);
+}
